@@ -937,6 +937,88 @@ def check_random(rep):
 
 # ---------------------------------------------------------------------------
 
+# ---- input threading: a sub-pattern embedded in place sees the same input values as when it is streamed alone ----------
+def _echo_gen(inval):
+    while True:
+        inval = yield inval
+
+
+def _echo_gen_twice(inval):
+    while True:
+        inval = yield (inval, 'a')
+        inval = yield (inval, 'b')
+
+
+def _echo_fn(inval):
+    return inval
+
+
+THREADING = {
+    'Prout(echo)': lambda P: P['Prout'](_echo_gen),
+    'Prout(echo2)': lambda P: P['Prout'](_echo_gen_twice),
+    'Pfuncn(echo,inf)': lambda P: P['Pfuncn'](_echo_fn, float('inf')),
+    'Plazy(Pfuncn(echo))': lambda P: P['Plazy'](lambda inval: P['Pfuncn'](_echo_fn, float('inf'))),
+    'Pfunc(echo)': lambda P: P['Pfunc'](_echo_fn),
+}
+WRAPS = {
+    'Pseq([x])': lambda P, x: P['Pseq']([x]),
+    'Pn(x,1)': lambda P, x: P['Pn'](x, 1),
+    'Pseq([Pseq([x])])': lambda P, x: P['Pseq']([P['Pseq']([x])]),
+    'Pswitch([x],0)': lambda P, x: P['Pswitch']([x], P['Pseq']([0])),
+}
+INPUT_RUNS = [(10, 20, 30, 40), ('u', 'v', 'w'), (1,), (0, 0, 7, 0, 9)]
+
+
+def check_threading(rep, only_case=None):
+    from sc3.base.stream import stream, StopStream
+    from sc3.seq.patterns import funcpatterns as fp, listpatterns as lp, filterpatterns as flp
+    P = {'Prout': fp.Prout, 'Pfuncn': fp.Pfuncn, 'Plazy': fp.Plazy, 'Pfunc': fp.Pfunc,
+         'Pseq': lp.Pseq, 'Pn': flp.Pn, 'Pswitch': lp.Pswitch}
+
+    def run(pat, inputs):
+        st = stream(pat)
+        out = []
+        for i in inputs:
+            try:
+                out.append(st.next(i))
+            except StopStream:
+                out.append('<end>')
+                break
+        return out
+
+    n = 0
+    seen = set()
+    samples = []
+    for name, mk in THREADING.items():
+        for wname, wrap in WRAPS.items():
+            for inputs in INPUT_RUNS:
+                case = '%s in %s with inputs %r' % (name, wname, inputs)
+                if only_case and case != only_case:
+                    continue
+                n += 1
+                try:
+                    alone = run(mk(P), inputs)
+                    inside = run(wrap(P, mk(P)), inputs)
+                except Exception as e:                      # a pattern that cannot be streamed at all is C13.den's business
+                    continue
+                seen.add((name, wname))
+                if len(samples) < 5:
+                    samples.append({'case': case, 'alone': alone})
+                if alone != inside:
+                    rep.violation(obligation='C13.threading.embedded-sees-the-same-inputs',
+                                  what='%s: alone %r, embedded %r' % (case, alone, inside),
+                                  input=case, observed=inside, expected=alone,
+                                  key='C13.threading:%s' % name,
+                                  replay={'func': 'threading', 'args': case, 'ob': 'threading'})
+    rep.bounded('input-threading', 'Prout/Pfuncn/Plazy/Pfunc embedded in Pseq/Pn/Pswitch',
+                bound='%d function patterns that echo their input x %d one-element wrappers x %d input runs'
+                      % (len(THREADING), len(WRAPS), len(INPUT_RUNS)),
+                evaluations=n, distinct_nontrivial=len(seen),
+                rule='stream(x).next(i) for the input run == stream(wrap(x)).next(i) for the same run '
+                     '(a one-element wrapper denotes its element)',
+                samples=samples, exhaustive=True)
+
+
 def main(rep):
     silence_sc3_logging()
     import warnings
@@ -993,6 +1075,8 @@ def main(rep):
             exhaustive=False)
     if wants(rep, 'random'):
         check_random(rep)
+    if wants(rep, 'threading'):
+        check_threading(rep)
 
 
 def replay(case, rep):
@@ -1012,6 +1096,9 @@ def replay(case, rep):
                               what='%s: %s' % (enc(expr), f['what']),
                               input=enc(expr), observed=f['observed'],
                               expected=f['expected'], key=case.get('key'))
+        return not rep.violations
+    if r.get('func') == 'threading':
+        check_threading(rep, only_case=r.get('args'))
         return not rep.violations
     if r.get('func') == 'random':
         only = getattr(rep, 'only', None)
